@@ -1,0 +1,252 @@
+//! Read-only, canonically ordered copy of the router's bookkeeping (feature
+//! `verif-snapshot`). Used by the verification harness to hash states, to check
+//! structural invariants and to attribute stalls. Never used by the broker itself.
+use super::Router;
+use crate::router::scheduler::{PauseReason, Status};
+use crate::router::DataRequest;
+use std::collections::hash_map::DefaultHasher;
+use std::hash::{Hash, Hasher};
+
+/// (filter, filter index, qos, cursor, forward_retained, group)
+pub type Req = (String, usize, u8, (u64, u64), bool, Option<String>);
+
+fn req(r: &DataRequest) -> Req {
+    (
+        r.filter.clone(),
+        r.filter_idx,
+        r.qos,
+        r.cursor,
+        r.forward_retained,
+        r.group.clone(),
+    )
+}
+
+#[derive(Debug, Clone, PartialEq, Eq, Hash, PartialOrd, Ord)]
+pub struct ConnSnap {
+    pub id: usize,
+    pub client_id: String,
+    pub clean: bool,
+    pub subscriptions: Vec<String>,
+    pub subscription_ids: Vec<(String, usize)>,
+    pub topic_aliases: Vec<(u16, String)>,
+    pub broker_aliases: Vec<(String, u16)>,
+    /// 0 ready, 1 caught-up, 2 inflight-full, 3 busy
+    pub status: u8,
+    pub requests: Vec<Req>,
+    pub inflight: Vec<(u16, usize, Option<(u64, u64)>)>,
+    pub last_pkid: u16,
+    pub unacked_pubrels: Vec<u16>,
+    pub obuf_len: usize,
+    pub ibuf_len: usize,
+    pub pending_acks: Vec<String>,
+    pub recorded_qos2: usize,
+}
+
+#[derive(Debug, Clone, PartialEq, Eq, Hash, PartialOrd, Ord)]
+pub struct FilterSnap {
+    pub filter: String,
+    pub idx: usize,
+    pub head: u64,
+    pub tail: u64,
+    pub next_offset: (u64, u64),
+    /// hash over (offset, topic, payload, qos, retain) of every retained entry
+    pub content_hash: u64,
+    pub entries: u64,
+    pub waiters: Vec<(usize, Req)>,
+}
+
+#[derive(Debug, Clone, PartialEq, Eq, Hash, PartialOrd, Ord)]
+pub struct GraveSnap {
+    pub client_id: String,
+    /// (requests, subscriptions, unacked pubrels) of a saved persistent session
+    #[allow(clippy::type_complexity)]
+    pub session: Option<(Vec<Req>, Vec<String>, Vec<u16>)>,
+}
+
+#[derive(Debug, Clone, PartialEq, Eq, Hash, PartialOrd, Ord, Default)]
+pub struct Snapshot {
+    /// keys of the five key-aligned slabs: connections, ibufs, obufs, ackslog, trackers
+    pub slab_keys: [Vec<usize>; 5],
+    pub connection_map: Vec<(String, usize)>,
+    pub subscription_map: Vec<(String, Vec<usize>)>,
+    pub connections: Vec<ConnSnap>,
+    pub readyqueue: Vec<usize>,
+    pub filters: Vec<FilterSnap>,
+    pub publish_filters: Vec<(String, Vec<usize>)>,
+    pub retained: Vec<(String, Vec<u8>, u8)>,
+    pub graveyard: Vec<GraveSnap>,
+    /// group name -> (members, turn, cursor)
+    #[allow(clippy::type_complexity)]
+    pub shared: Vec<(String, (Vec<String>, usize, (u64, u64)))>,
+    pub last_wills: Vec<String>,
+    pub notifications: usize,
+    pub channel_len: usize,
+}
+
+impl Router {
+    pub fn verif_snapshot(&self) -> Snapshot {
+        let mut s = Snapshot {
+            slab_keys: [
+                self.connections.iter().map(|(k, _)| k).collect(),
+                self.ibufs.iter().map(|(k, _)| k).collect(),
+                self.obufs.iter().map(|(k, _)| k).collect(),
+                self.ackslog.iter().map(|(k, _)| k).collect(),
+                self.scheduler.trackers.iter().map(|(k, _)| k).collect(),
+            ],
+            ..Default::default()
+        };
+
+        s.connection_map = self
+            .connection_map
+            .iter()
+            .map(|(k, v)| (k.clone(), *v))
+            .collect();
+        s.connection_map.sort();
+
+        s.subscription_map = self
+            .subscription_map
+            .iter()
+            .map(|(k, v)| {
+                let mut ids: Vec<_> = v.iter().cloned().collect();
+                ids.sort();
+                (k.clone(), ids)
+            })
+            .collect();
+        s.subscription_map.sort();
+
+        for (id, c) in self.connections.iter() {
+            let mut subscriptions: Vec<_> = c.subscriptions.iter().cloned().collect();
+            subscriptions.sort();
+            let mut subscription_ids: Vec<_> = c
+                .subscription_ids
+                .iter()
+                .map(|(k, v)| (k.clone(), *v))
+                .collect();
+            subscription_ids.sort();
+            let mut topic_aliases: Vec<_> =
+                c.topic_aliases.iter().map(|(k, v)| (*k, v.clone())).collect();
+            topic_aliases.sort();
+            let mut broker_aliases: Vec<_> = c
+                .broker_topic_aliases
+                .as_ref()
+                .map(|a| {
+                    a.broker_topic_aliases
+                        .iter()
+                        .map(|(k, v)| (k.clone(), *v))
+                        .collect()
+                })
+                .unwrap_or_default();
+            broker_aliases.sort();
+
+            let (status, requests) = match self.scheduler.trackers.get(id) {
+                Some(t) => (
+                    match t.status {
+                        Status::Ready => 0,
+                        Status::Paused(PauseReason::Caughtup) => 1,
+                        Status::Paused(PauseReason::InflightFull) => 2,
+                        Status::Paused(PauseReason::Busy) => 3,
+                    },
+                    t.data_requests.iter().map(req).collect(),
+                ),
+                None => (255, vec![]),
+            };
+
+            let (inflight, last_pkid, unacked_pubrels, obuf_len) = self
+                .obufs
+                .get(id)
+                .map(|o| o.verif_state())
+                .unwrap_or_default();
+            let ibuf_len = self.ibufs.get(id).map_or(0, |i| i.buffer.lock().len());
+            let (pending_acks, recorded_qos2) = self
+                .ackslog
+                .get(id)
+                .map(|a| a.verif_state())
+                .unwrap_or_default();
+
+            s.connections.push(ConnSnap {
+                id,
+                client_id: c.client_id.clone(),
+                clean: c.clean,
+                subscriptions,
+                subscription_ids,
+                topic_aliases,
+                broker_aliases,
+                status,
+                requests,
+                inflight,
+                last_pkid,
+                unacked_pubrels,
+                obuf_len,
+                ibuf_len,
+                pending_acks,
+                recorded_qos2,
+            });
+        }
+
+        s.readyqueue = self.scheduler.readyqueue.iter().cloned().collect();
+
+        for (filter, idx) in self.datalog.verif_filters() {
+            let Some(data) = self.datalog.native.get(idx) else {
+                continue;
+            };
+            let (head, tail) = data.log._head_and_tail();
+            let mut out = Vec::new();
+            let _ = data.log.readv((head, 0), 1 << 40, &mut out);
+            let mut h = DefaultHasher::new();
+            for (p, offset) in out.iter() {
+                offset.hash(&mut h);
+                p.publish.topic.hash(&mut h);
+                p.publish.payload.hash(&mut h);
+                (p.publish.qos as u8).hash(&mut h);
+                p.publish.retain.hash(&mut h);
+                p.properties.is_some().hash(&mut h);
+            }
+            s.filters.push(FilterSnap {
+                filter,
+                idx,
+                head,
+                tail,
+                next_offset: data.log.next_offset(),
+                content_hash: h.finish(),
+                entries: out.len() as u64,
+                waiters: data
+                    .waiters
+                    .waiters()
+                    .iter()
+                    .map(|(id, r)| (*id, req(r)))
+                    .collect(),
+            });
+        }
+
+        s.publish_filters = self.datalog.verif_publish_filters();
+        s.retained = self.datalog.verif_retained();
+
+        for (client_id, session) in self.graveyard.verif_state() {
+            s.graveyard.push(GraveSnap {
+                client_id,
+                session: session.map(|st| {
+                    let mut subs: Vec<_> = st.subscriptions.iter().cloned().collect();
+                    subs.sort();
+                    (
+                        st.tracker.data_requests.iter().map(req).collect(),
+                        subs,
+                        st.unacked_pubrels.iter().cloned().collect(),
+                    )
+                }),
+            });
+        }
+
+        s.shared = self
+            .shared_subscriptions
+            .iter()
+            .map(|(k, g)| (k.clone(), g.verif_state()))
+            .collect();
+        s.shared.sort();
+
+        s.last_wills = self.last_wills.keys().cloned().collect();
+        s.last_wills.sort();
+        s.notifications = self.notifications.len();
+        s.channel_len = self.router_rx.len();
+        s
+    }
+}
